@@ -123,7 +123,8 @@ class ClassInfo:
 
 
 class ModuleInfo:
-    def __init__(self, name: str, text: str, path: str, tree: Optional[ast.Module] = None, log: Optional[List[str]] = None):
+    def __init__(self, name: str, text: str, path: str, tree: Optional[ast.Module] = None, log: Optional[List[str]] = None,
+                 ext: Optional[Dict[str, ast.AST]] = None):
         self.name = name
         self.text = text
         self.path = path
@@ -145,7 +146,7 @@ class ModuleInfo:
                     self.decomposition_log.append('%s: canonical decomposition skipped (%r)' % (name, e))
                     self.tree = ast.parse(text)
             try:
-                self.tree = normalize(self.tree)
+                self.tree = normalize(self.tree, ext)
             except Exception as e:                      # pragma: no cover
                 self.decomposition_log.append('%s: normalisation skipped (%r)' % (name, e))
                 self.tree = ast.parse(text)
@@ -225,6 +226,58 @@ class ModuleInfo:
                     self._index_body(h.body, prefix, cls, func)
 
 
+def _imported_constants(sources: Dict[str, str]) -> Dict[str, Dict[str, ast.AST]]:
+    """per yatiml module: local name -> value, for the names it imports from other yatiml modules that are constants there
+    (literals, and dict displays that no yatiml module modifies).  Two rounds, so that a constant defined from an imported
+    constant can itself be imported."""
+    from .normalize import module_exports, _table_modified
+    parsed: Dict[str, ast.Module] = {}
+    for name, text in sources.items():
+        try:
+            parsed[name] = ast.parse(text)
+        except SyntaxError:
+            continue
+    imports: Dict[str, Dict[str, Tuple[str, str]]] = {}
+    for name, tree in parsed.items():
+        imp: Dict[str, Tuple[str, str]] = {}
+        for st in ast.walk(tree):
+            if isinstance(st, ast.ImportFrom) and not any(a.name == '*' for a in st.names):
+                mod = st.module or ''
+                if st.level:
+                    base = name.split('.')
+                    pkg = base if name == 'yatiml' else base[:-1]
+                    pkg = pkg[:len(pkg) - (st.level - 1)] if st.level > 1 else pkg
+                    mod = '.'.join(pkg + ([mod] if mod else []))
+                if mod in parsed:
+                    for a in st.names:
+                        imp[a.asname or a.name] = (mod, a.name)
+        imports[name] = imp
+    exts: Dict[str, Dict[str, ast.AST]] = {name: {} for name in parsed}
+    for _ in range(2):
+        exports = {}
+        for name, tree in parsed.items():
+            try:
+                exports[name] = module_exports(tree, exts[name])
+            except Exception:               # pragma: no cover
+                exports[name] = {}
+        for name in parsed:
+            ext = {}
+            for local, (mod, orig) in imports[name].items():
+                v = exports.get(mod, {}).get(orig)
+                if v is None:
+                    continue
+                # across modules only immutable values travel: scalars and tuples of scalars (REC_OK = ('', []) stays a name)
+                if not isinstance(v, ast.Dict) and not (isinstance(v, ast.Constant) or (
+                        isinstance(v, ast.Tuple) and all(isinstance(x, ast.Constant) for x in v.elts))):
+                    continue
+                if isinstance(v, ast.Dict) and any(_table_modified(t, orig) or (local != orig and _table_modified(t, local))
+                                                   for t in parsed.values()):
+                    continue
+                ext[local] = v
+            exts[name] = ext
+    return exts
+
+
 class Program:
     def __init__(self, sources: Dict[str, str], yaml_sources: Optional[Dict[str, str]] = None,
                  repo: str = REPO):
@@ -232,6 +285,7 @@ class Program:
         self.modules: Dict[str, ModuleInfo] = {}
         trees: Dict[str, ast.Module] = {}
         logs: Dict[str, List[str]] = {}
+        exts = _imported_constants(sources)
         if not os.environ.get('SA_NO_INLINE'):
             # canonical decomposition, program level: renamed functions first (per module), then functions that moved to another module
             from . import inline
@@ -242,6 +296,13 @@ class Program:
                 except SyntaxError as e:
                     raise AnalysisError('cannot parse %s: %s' % (rel, e))
                 inline.PROTECTED[id(trees[name])] = set()
+                try:
+                    # step K: constants (own and imported from other yatiml modules) are folded before anything is compared
+                    from .normalize import propagate_module_constants
+                    trees[name] = propagate_module_constants(trees[name], exts.get(name))
+                except Exception:                       # pragma: no cover
+                    trees[name] = ast.parse(text)
+                    inline.PROTECTED[id(trees[name])] = set()
                 try:
                     logs[name] = inline.restore_renamed(trees[name], name)
                     logs[name] += inline.restore_renamed_attributes(trees[name], name)
@@ -261,7 +322,7 @@ class Program:
                     logs[name] = logs.get(name, []) + ['%s: folding inlined functions back skipped (%r)' % (name, e)]
         for name, text in sources.items():
             rel = name.replace('.', '/') + ('.py' if name != 'yatiml' else '/__init__.py')
-            self.modules[name] = ModuleInfo(name, text, rel, trees.get(name), logs.get(name))
+            self.modules[name] = ModuleInfo(name, text, rel, trees.get(name), logs.get(name), exts.get(name))
         ys = yaml_sources if yaml_sources is not None else read_yaml_sources()
         for name, text in ys.items():
             rel = 'site-packages/' + name.replace('.', '/') + ('.py' if name != 'yaml' else '/__init__.py')
